@@ -404,12 +404,84 @@ def _origins_place(fn, l, fes, depth, seen, tc):
                 continue
             ck = callee_skey(t) or "indirect"
             out.append({"k": "call", "callee": ck, "pt": pt, "t": t})
+            if tc and fes and t["args"] and re.search(r"Iterator>?::next$", ck):
+                # the element handed out by `next()` of a zip / enumerate chain is positional: `.0` of a zip item comes from the first
+                # iterator, `.1` from the second; `.0` of an enumerate item is the running index
+                tree = _iter_tree(fn, t["args"][0], 0)
+                if tree is not None and tree[0] != "leaf":
+                    lf_ = _names(_field_elems(t["dest"]))
+                    rest_ = fes[len(lf_):] if lf_ == names[:len(lf_)] else fes
+                    if rest_ and rest_[0]["f"] == "0":          # the payload of Some(..)
+                        plain = not _tree_has(tree, ("rev", "skip", "step_by", "skip_while"))
+                        for s_ in _elem_origins(fn, tree, rest_[1:], depth + 1, seen, tc, plain):
+                            s_ = dict(s_)
+                            s_.setdefault("via_next", pt)
+                            s_.setdefault("plain", plain)
+                            out.append(s_)
+                        continue
             if tc and (TRANSPARENT.search(ck) or WRAPPERS.search(ck)) and t["args"]:
                 out += _origins_op(fn, t["args"][0], [], depth, seen, tc)
             elif getattr(tc, "bin", False) and VALUE_CALLS.search(ck):
                 for a in t["args"]:
                     out += _origins_op(fn, a, [], depth, seen, tc)
     return out
+
+
+ITER_PASS = re.compile(r"(^|::)(iter|iter_mut|into_iter|by_ref|take|skip|rev|peekable|copied|cloned|step_by|skip_while|take_while|fuse|chunks_exact|chunks_exact_mut|chunks|windows|deref|deref_mut|borrow_mut|as_mut|as_ref)$")
+
+
+def _iter_tree(fn, op, depth):
+    """The construction of an iterator operand: ('zip', A, B) | ('enumerate', A) | ('pass', name, A) | ('leaf', operand)."""
+    if depth > 12 or op.get("k") not in ("copy", "move"):
+        return ("leaf", op)
+    l = op["pl"]["l"]
+    ds = [(kind, p_) for (_pt, kind, p_) in defs(fn).of(l) if kind in ("assign", "call")]
+    if len(ds) != 1:
+        return ("leaf", op)
+    kind, p_ = ds[0]
+    if kind == "assign":
+        rv = p_["rv"]
+        if rv["r"] in ("use", "cast"):
+            return _iter_tree(fn, rv["a"], depth + 1)
+        if rv["r"] in ("ref", "rawptr"):
+            return _iter_tree(fn, {"k": "copy", "pl": {"l": rv["pl"]["l"], "p": [e for e in rv["pl"]["p"] if e != "*"]}}, depth + 1) if not _field_elems(rv["pl"]) else ("leaf", op)
+        return ("leaf", op)
+    ck = callee_skey(p_) or ""
+    a = p_["args"]
+    if re.search(r"(^|::)zip$", ck) and len(a) == 2:
+        return ("zip", _iter_tree(fn, a[0], depth + 1), _iter_tree(fn, a[1], depth + 1))
+    if re.search(r"(^|::)enumerate$", ck) and len(a) == 1:
+        return ("enumerate", _iter_tree(fn, a[0], depth + 1))
+    if ITER_PASS.search(ck) and a:
+        return ("pass", ck.rsplit("::", 1)[-1], _iter_tree(fn, a[0], depth + 1))
+    return ("leaf", op)
+
+
+def _tree_has(tree, names):
+    if tree[0] == "pass" and tree[1] in names:
+        return True
+    return any(_tree_has(x, names) for x in tree[1:] if isinstance(x, tuple) and x and x[0] in ("zip", "enumerate", "pass", "leaf"))
+
+
+def _elem_origins(fn, tree, rest, depth, seen, tc, plain):
+    k = tree[0]
+    if k == "zip":
+        if rest and rest[0]["f"] in ("0", "1"):
+            return _elem_origins(fn, tree[1 + int(rest[0]["f"])], rest[1:], depth, seen, tc, plain)
+        return _elem_origins(fn, tree[1], [], depth, seen, tc, plain) + _elem_origins(fn, tree[2], [], depth, seen, tc, plain)
+    if k == "enumerate":
+        if rest and rest[0]["f"] == "0":
+            return [{"k": "index", "from": 0, "plain": plain}]
+        if rest and rest[0]["f"] == "1":
+            return _elem_origins(fn, tree[1], rest[1:], depth, seen, tc, plain)
+        return [{"k": "index", "from": 0, "plain": plain}] + _elem_origins(fn, tree[1], [], depth, seen, tc, plain)
+    if k == "pass":
+        return _elem_origins(fn, tree[2], rest, depth, seen, tc, plain)
+    op = tree[1]
+    if op.get("k") == "const":
+        return origins(fn, op)
+    pl = op["pl"]
+    return _origins_place(fn, pl["l"], _field_elems(pl), depth + 1, set(), tc)
 
 
 def origin_fields(fn, op):
